@@ -151,7 +151,8 @@ type knode struct {
 	cl      *ipfscluster.Cluster
 	mon     *worldMon
 	up      bool
-	left    bool // departed (removed while running, or left): reported as x<j>
+	left    bool        // departed (removed while running, or left): reported as x<j>
+	ready   chan string // the peer's pinset at the instant Ready() fired
 }
 
 type kworld struct {
@@ -322,6 +323,19 @@ func (w *kworld) startNode(n *knode, staging bool) error {
 		return err
 	}
 	n.cl = cl
+	n.ready = make(chan string, 1)
+	go func(cl *ipfscluster.Cluster, ready chan string) {
+		select {
+		case <-cl.Ready():
+			pins, err := cl.Pins(context.Background())
+			if err != nil {
+				ready <- "err"
+				return
+			}
+			ready <- w.pinsetTok(pins)
+		case <-cl.Done():
+		}
+	}(cl, n.ready)
 	return nil
 }
 
@@ -527,14 +541,11 @@ func (w *kworld) exec(op string) (string, bool) {
 			w.setDown(j)
 			return fmt.Sprintf("%s@%s@%s@err@-", f[0], f[1], f[2]), true
 		}
-		if !within(60*time.Second, func() { <-j.cl.Ready() }) {
+		snap := ""
+		if !within(60*time.Second, func() { snap = <-j.ready }) || snap == "err" {
 			return "", false
 		}
-		pins, perr := j.cl.Pins(ctx)
-		if perr != nil {
-			return "", false
-		}
-		return fmt.Sprintf("%s@%s@%s@ok@%s", f[0], f[1], f[2], w.pinsetTok(pins)), true
+		return fmt.Sprintf("%s@%s@%s@ok@%s", f[0], f[1], f[2], snap), true
 	case "prm":
 		if len(f) < 3 {
 			return "", true
@@ -619,7 +630,7 @@ func (w *kworld) exec(op string) (string, bool) {
 			return "", true
 		}
 		at := w.knode(f[1])
-		if at == nil || !at.up {
+		if at == nil || !at.up || !validPinArg("pin", f[2]) {
 			return "", true
 		}
 		w.injectMetrics()
@@ -638,7 +649,7 @@ func (w *kworld) exec(op string) (string, bool) {
 			return "", true
 		}
 		at := w.knode(f[1])
-		if at == nil || !at.up {
+		if at == nil || !at.up || !validPinArg("unpin", f[2]) {
 			return "", true
 		}
 		var err error
